@@ -394,6 +394,8 @@ func cmdWasm(args []string) {
 			var err error
 			killed := false
 			lastSize, lastChange := int64(-1), time.Now()
+			wrote := false // generous until this process has answered its first call (start-up on a loaded machine)
+			var size0 int64 = -1
 		wait:
 			for {
 				select {
@@ -404,9 +406,19 @@ func cmdWasm(args []string) {
 					if st, e := os.Stat(res); e == nil {
 						sz = st.Size()
 					}
+					if size0 < 0 {
+						size0 = sz
+					}
+					if sz > size0 {
+						wrote = true
+					}
+					limit := 60 * time.Second
+					if wrote {
+						limit = 12 * time.Second
+					}
 					if sz != lastSize {
 						lastSize, lastChange = sz, time.Now()
-					} else if time.Since(lastChange) > 8*time.Second {
+					} else if time.Since(lastChange) > limit {
 						cmd.Process.Kill()
 						<-done
 						killed = true
